@@ -6,7 +6,12 @@ LEAN_MODULES = ["MpirProofs.Props.C18_scanrt2", "MpirProofs.Props.C18_scancount"
 THEOREMS = ["Mpir.Scanf.print_scan_roundtrip_Zi", "Mpir.Scanf.print_scan_roundtrip_Q", "Mpir.Scanf.print_scan_roundtrip_Qi",
             "Mpir.Scanf.scan_count_oracle", "Mpir.Scanf.scan_count_spec"]
 TRUSTED = []
-ASSUMPTIONS = ["print_scan_roundtrip_Zi / _Q: the printed text is assumed shorter than INT_MAX-1 characters (doscan.c:230 cuts a field there; at exactly "
+ASSUMPTIONS = ["%Q with a precision: printf/doprnti.c:89 says `the influence of p->prec on mpq is currently undefined`; the theorems describe what the code "
+               "does (zeros = precision - strlen of the whole `num/den` string, put in front of the numerator) and the run pins it",
+               "scan_count_spec: the directive type `Dir` has no length modifiers (`%d`, `%n`); the harness stores through 64-bit cells and so runs the "
+               "`l` forms (`%ld`, `%ln`) and `%Zn`, which only the character-level model covers; whole-format locality (consumed prefix + one character) "
+               "is not proved (single fixed-base %Z field: scan_field_Z_fixed)",
+               "print_scan_roundtrip_Zi / _Q: the printed text is assumed shorter than INT_MAX-1 characters (doscan.c:230 cuts a field there; at exactly "
                "INT_MAX-1 the look-ahead GET is the one cut, which the proof does not follow); documented exceptions are hypotheses (no digit "
                "printed; o/x/X of a non-zero value need `#` to be read by %Zi; a zero in front of a decimal number is taken for the octal indicator)"]
 RULE = ("%Zi grid: 32 flag subsets x width {none,1,12,*,-*} x precision {none,.0,.1,.7,.*} x conv d i o x X x values (0, 1..9, 8/9-digit octal "
